@@ -35,6 +35,7 @@ func checkC03(c *Ctx) {
 	c.flagBitTables()
 	c.willFlagSiblings()
 	c.lpHelpersAcceptSpecLengths()
+	c.encodersWriteEveryByte()
 }
 
 // decodeLoopConservation: B3.
